@@ -1,6 +1,6 @@
 (* Correspondence entry point: one op name + arguments -> canonical observation.
    Extracted to OCaml (Extract.v) and driven by ocaml/driver.ml. *)
-From Ufw Require Import Base.Val Base.Bits Base.Errno Model.Crc Model.ByteBuffer Model.Endpoints Model.Varint Model.Ring Model.Slip Model.Lenp.
+From Ufw Require Import Base.Val Base.Bits Base.Errno Model.Crc Model.ByteBuffer Model.Endpoints Model.Varint Model.Ring Model.Slip Model.Lenp Model.Persist.
 Local Open Scope string_scope.
 Local Open Scope N_scope.
 
@@ -322,6 +322,44 @@ Definition run_lenp (op : string) (a : list val) : list val :=
     end
   else [VS "unknown-op"].
 
+(* ---------------- persistent storage (C10, C11) ---------------- *)
+Definition fault_decode (z : Z) : fault := if (z <? 0)%Z then Fok else Fshort (Z.to_N z).
+Definition pacc_name (a : paccess) : val :=
+  VS (match a with PSuccess => "SUCCESS" | PInvalidData => "INVALID_DATA" | PIoError => "IO_ERROR" | PAddrRange => "ADDRESS_OUT_OF_RANGE" end).
+Definition ps_step_of (ckind : N) : N -> N -> N :=
+  match ckind with 0 => step_trivial | 1 => spec_octet | _ => step_sum32 end.
+Definition ps_obs (st : pstore) (m0 m : medium) (a : paccess) (d : val) : list val :=
+  [pacc_name a; d; VH (m_img m); vbool (forallb (in_region st) (m_log m));
+   vbool (N.of_nat (length (m_log m)) =? N.of_nat (length (m_log m0)))].
+Fixpoint ps_run (step : N -> N -> N) (st : pstore) (m : medium) (ops : list (N * N * N * N)) : list val :=
+  match ops with
+  | [] => []
+  | (code, a, b, c) :: r =>
+      let '(obs, m') :=
+        match code with
+        | 0 => let '(acc, m') := store step st m (gen_octets a (N.to_nat (p_dsize st))) in (ps_obs st m m' acc (VS "-"), m')
+        | 1 => let '(acc, m') := store_part step st m (gen_octets a (N.to_nat (N.min c 64))) b c in (ps_obs st m m' acc (VS "-"), m')
+        | 2 => let '(acc, m') := validate step st m in (ps_obs st m m' acc (VS "-"), m')
+        | 3 => let '(acc, d, m') := fetch st m in (ps_obs st m m' acc (match acc with PSuccess => VH d | _ => VS "-" end), m')
+        | 4 => let '(acc, d, m') := fetch_part st m a b in (ps_obs st m m' acc (match acc with PSuccess => VH d | _ => VS "-" end), m')
+        | 5 => let '(acc, m') := reset st m a in (ps_obs st m m' acc (VS "-"), m')
+        | _ => let m' := {| m_base := m_base m; m_img := upd (m_img m) (N.to_nat a) (N.lxor (nth (N.to_nat a) (m_img m) 0) b);
+                           m_log := m_log m; m_rd := m_rd m; m_wr := m_wr m |} in
+               ([VS "corrupt"; VS "-"; VH (m_img m'); VS "-"; VS "-"], m')
+        end in
+      (obs ++ ps_run step st m' r)%list
+  end.
+Definition run_ps (op : string) (a : list val) : list val :=
+  if String.eqb op "ps.run" then
+    let ckind := argN 3 a in
+    let bs := argZ 6 a in
+    let st := {| p_caddr := argN 2 a; p_csize := (if ckind =? 2 then 4 else 2); p_dsize := argN 5 a;
+                 p_init := argN 4 a; p_bsize := (if (bs <=? 0)%Z then 1 else Z.to_N bs) |} in
+    let m := {| m_base := argN 0 a; m_img := argH 1 a; m_log := []; m_rd := map fault_decode (argLZ 7 a);
+                m_wr := map fault_decode (argLZ 8 a) |} in
+    ps_run (ps_step_of ckind) st m (quads (argLN 9 a))
+  else [VS "unknown-op"].
+
 Definition prefix_of (p s : string) : bool := String.prefix p s.
 
 Definition dispatch (op : string) (a : list val) : list val :=
@@ -332,4 +370,5 @@ Definition dispatch (op : string) (a : list val) : list val :=
   else if prefix_of "slip." op then run_slip op a
   else if prefix_of "ep." op then run_ep op a
   else if prefix_of "lenp." op then run_lenp op a
+  else if prefix_of "ps." op then run_ps op a
   else [VS "unknown-op"].
